@@ -4,6 +4,7 @@ The pre-state is symbolic (buffer of symbolic length <= N holding arbitrary ASCI
 zero counter, frozen bit, flags, marker).  Each public method is executed from its MIR; the solver decides that the
 result and post-state equal the reference semantics written from the method documentation (spec_* below), that no
 panic condition is satisfiable, and that the representation invariant is re-established (induction)."""
+import os
 import z3
 from .common import Check, new_executor, Inconclusive
 from mirsym.values import *
@@ -579,6 +580,9 @@ def run(ck: Check):
     do_query('to_string', ds_fn(ex0, 'to_string'), [], [], spec_to_string, lambda m: 'state', kind='str')
 
     ck.states = ck.paths
+    if not quick or os.environ.get('VERIF_KANI') == '1':
+        from .c12_kani import run_kani
+        run_kani(ck, bool(ck.violations))
     return ('One inductive step per public DigitString method from an arbitrary valid builder state (symbolic length '
             '<= %d, symbolic digits, zero counter, frozen bit, flags, marker): MIR of the method executed symbolically, '
             'result/post-state compared by z3 with the reference semantics written from the method documentation; every '
